@@ -33,7 +33,7 @@ ASSUMPTIONS = [
 ]
 BUDGET = {"quick": {"examples": 2400}, "thorough": {"examples": 200000, "deadline_s": 1500}}
 
-CFG = gen.cfg(max_syms=12, p_source=12, p_macro=10, p_env=10, p_comment=12, p_menu=18, p_if=18, p_choice=14, p_help=35, p_warning=10)
+CFG = gen.cfg(max_syms=12, p_source=12, p_macro=10, p_env=10, p_comment=12, p_menu=18, p_if=18, p_choice=14, p_help=35, p_warning=10, p_multi_def=10, p_choice_twice=20)
 
 # Near-miss programs (one structural line dropped / duplicated) were part of the first design.  They are outside the
 # property's domain ("every source in the documented language" + the shipped fixtures): the parsers are allowed to
@@ -93,6 +93,7 @@ def _cases(draw):
         "squote": d.chance(15),
         "trailing": d.weighted([(6, 0), (2, 3), (1, 2), (1, 5)]),
         "cont": d.chance(25),
+        "cont_multi": d.chance(40),
         "prop_order": d.int(0, 500) if d.chance(40) else 0,
     }
     assigns = [gen.gen_assignments(d, tree, CFG, 0, 6, kinds=[(85, "valid"), (15, "alt")]) for _ in range(3)]
@@ -291,6 +292,19 @@ def _features(case):
     return f
 
 
+def _neutralize(tree, text):
+    def rec(x):
+        if isinstance(x, str):
+            return x.replace(text, "plain text") if text in x else x
+        if isinstance(x, list):
+            return [rec(y) for y in x]
+        if isinstance(x, dict):
+            return {k: rec(v) for k, v in x.items()}
+        return x
+
+    return rec(tree)
+
+
 def check(case) -> Result:
     res = Result()
     if "fixture" in case:
@@ -317,13 +331,30 @@ def check(case) -> Result:
             risky.append("macro-trailing-comment")
         if case.get("risky_string"):
             res.label("string:" + case["risky_string"])
+        neutral = None
+        if inner.violations and case.get("risky_string") and RISKY_STRINGS[case["risky_string"].split("@")[0]]:
+            # is the odd string really what the parsers disagree about?  The same case with the string replaced by a
+            # tier-A one must then be clean; if it is not, the difference is reported under its own (generic) signature
+            # and cannot hide behind the string class
+            cls = case["risky_string"].split("@")[0]
+            sub = os.path.join(d, "neutral")
+            os.makedirs(sub, exist_ok=True)
+            case2 = dict(case, tree=_neutralize(case["tree"], RISKY_STRINGS[cls]))
+            for name, text in _files(case2, sub).items():
+                with open(os.path.join(sub, name), "w") as f:
+                    f.write(text)
+            neutral = Result()
+            differential(os.path.join(sub, "Kconfig"), case2["tree"].get("env"), case["assigns"], neutral)
         for v in inner.violations:
-            if case.get("risky_string"):
+            if case.get("risky_string") and (neutral is None or not neutral.violations):
                 # one finding per (root cause of the string class, kind of outcome): tree / accept-mismatch / crash / output
                 cls = case["risky_string"].split("@")[0]
                 res.fail(f"string:{STRING_ROOT_CAUSE.get(cls, cls)}|{v.sig.split('|')[0]}", v.msg)
-            else:
+            elif not case.get("risky_string"):
                 res.fail(v.sig + ("|" + "+".join(risky) if risky else ""), v.msg)
+        if neutral is not None:
+            for v in neutral.violations:
+                res.fail(v.sig + ("|" + "+".join(risky) if risky else ""), v.msg + " [same case with the odd string replaced by plain text]")
         res.labels.extend(inner.labels)
         res.nontrivial = bool(feats) or nm != "none"
     return res
